@@ -5,9 +5,13 @@ import (
 	"sync"
 )
 
-//verif:entry property=C07 tier=both bounds="one Sequential handler (enter; yield; exit; the first invocation may panic), optionally behind a Once handler, and G concurrent synchronous publishers of one event each (typed or through Publish[any]), whose contexts the running invocation may cancel; every interleaving within the preemption bound" cover="done" G_quick=2 G_thorough=3 preempt_quick=2 preempt_thorough=3 race=on
-func harnessC07NoOverlapSync() {
-	G := vParam("G", 2)
+//verif:entry property=C07 tier=both bounds="one Sequential handler (enter; yield; exit; the first invocation may panic), optionally behind a Once handler, and G concurrent synchronous publishers of one event each (typed or through Publish[any]), whose contexts the running invocation may cancel; every interleaving within the preemption bound" cover="done" G_quick=2 G_thorough=3 preempt_quick=2 preempt_thorough=2 race=on
+func harnessC07NoOverlapSync() { c07NoOverlapSync(vParam("G", 2)) }
+
+//verif:entry property=C07 tier=thorough bounds="as above with 2 concurrent publishers and up to 3 preemptions" cover="done" preempt=3 race=on
+func harnessC07NoOverlapSyncDeep() { c07NoOverlapSync(2) }
+
+func c07NoOverlapSync(G int) {
 	bus := New()
 	var mu sync.Mutex
 	inside, maxInside, count := 0, 0, 0
